@@ -10,6 +10,11 @@ Streams (model `Wpull.Filter` vs the real code in the wpull checkout):
   rawtest   the same on hand-assembled filter lists (duplicates, no span-hosts filter, ...)
   web/ftp   the real WebProcessorSession / FTPProcessorSession driven over an in-memory
             network; requests seen by the servers vs the model's session skeleton
+  ftpcrawl  FTP crawls item by item: a command-line URL (plain or glob: *, ?, [a-t]*, files only / directories only /
+            both), the links its listing offers with the records the REAL session wrote (vs the model's
+            listingChildLevel), their sessions, ... over a nested in-memory tree, with / without -r, -l 1..3, glob
+            on / off; every LIST/RETR that reaches the server is judged by the reference under the depth the
+            property implies (true link distance), not the recorded one
   crawl     whole crawls of the REAL application (harness/appsim.py: Builder(args).build().run() on the
             deterministic loop, real SQLite table, scraper, clients) over generated sites on the start
             host, a forbidden host, other ports / https / www., with scope options from the whole set:
@@ -45,6 +50,8 @@ RULE = ('test: command lines generated option by option (each scope option on/of
         'parent and root URLs on same / other hosts and schemes. non-trivial = at least one non-default scope option or a '
         'record beyond level 0; distinct by (argv, hostnames, url, record, is_redirect). '
         'web/ftp: real processor sessions against scripted servers with redirects to other hosts and out-of-scope paths. '
+        'ftpcrawl: one case = one FTP crawl from a command-line URL (16 start shapes incl. glob patterns matching files, directories or both) '
+        'x {-r} x {-l 1,2,3,inf} x a few reject rules x glob on/off, up to 14 items each; non-trivial = at least 2 requests. '
         'crawl: one case = one end-to-end crawl (5 origins: start host, forbidden host, other port, https port, www.; '
         'links, page requisites and 1-2 hop redirects across them; 1-3 workers; robots on in ~25%); non-trivial = at least 2 page requests.')
 TRUSTED = ['the `re` engine and `fnmatch` are oracles of the model: their results are logged from the real calls and handed to the model',
@@ -794,8 +801,9 @@ class _Table:
     def check_in(self, url, status, **kw):
         self.calls.append(('check_in', url, status.value))
 
-    def add_many(self, *a, **k):
+    def add_many(self, infos=(), *a, **k):
         self.calls.append(('add_many',))
+        self.added = getattr(self, 'added', []) + list(infos)
 
     def update_one(self, *a, **k):
         pass
@@ -871,7 +879,9 @@ def real_web_session(demux, record, site, strong, robots):
 FTP_IPS = {'a.example': '10.0.1.1', 'b.example': '10.0.1.2', 'www.a.example': '10.0.1.3'}
 FTP_TREE = {'/': [('pub', True), ('top.txt', False)], '/top.txt': 'top',
             '/pub': [('file.txt', False), ('y.png', False), ('sub', True), ('blog', True)],
-            '/pub/file.txt': 'hello', '/pub/y.png': 'png', '/pub/sub': [('x.html', False)], '/pub/sub/x.html': 'x',
+            '/pub/file.txt': 'hello', '/pub/y.png': 'png', '/pub/sub': [('x.html', False), ('deeper', True)], '/pub/sub/x.html': 'x',
+            '/pub/sub/deeper': [('c.txt', False), ('deepest', True)], '/pub/sub/deeper/c.txt': 'c',
+            '/pub/sub/deeper/deepest': [('d.txt', False)], '/pub/sub/deeper/deepest/d.txt': 'd',
             '/pub/blog': []}
 
 
@@ -955,8 +965,16 @@ def real_ftp_session(demux, record, glob_on, preserve):
                        'URLTable': _Table()}
             item = ItemSession(types.SimpleNamespace(factory=factory, root_path=tmp), record)
             proc = FTPProcessor(client, FTPProcessorFetchParams(glob=glob_on, preserve_permissions=preserve))
-            return await _drive(proc, item)
-    return _run_session(go), world['log']
+            outcome = await _drive(proc, item)
+            # the links the session offered to the table (flushed by set_status, or still in the item's batch)
+            for info in list(getattr(factory['URLTable'], 'added', [])) + list(item._add_url_batch):
+                pr = info.properties
+                world['children'].append({'url': info.url, 'level': pr.level, 'inline_level': pr.inline_level,
+                                          'parent_url': pr.parent_url, 'root_url': pr.root_url,
+                                          'link_type': pr.link_type.value if pr.link_type else None})
+            return outcome
+    world['children'] = []
+    return _run_session(go), world['log'], world['children']
 
 
 def _justified(args, hostnames, url, rec, waived):
@@ -1079,14 +1097,15 @@ def ftp_shape(url, rec, glob_on, preserve):
     return 'probe!%s!%s' % (enc_info(dir_info), enc_info(slashed)), 'None'
 
 
-def run_ftp_cases(ctx, cases, log):
-    """cases: {argv, hostnames, url, record, glob, preserve}"""
-    reqs, metas = [], []
+def run_ftp_cases(ctx, cases, log, sample=True):
+    """cases: {argv, hostnames, url, record, glob, preserve} -> per case {seen, children, outcome}"""
+    reqs, metas, results = [], [], []
     for c in cases:
         args = parse_args(c['argv'])
         demux = real_build(args, c['hostnames'])
         log.clear()
-        outcome, seen = real_ftp_session(demux, make_record(c['url'], c['record']), c['glob'], c['preserve'])
+        outcome, seen, children = real_ftp_session(demux, make_record(c['url'], c['record']), c['glob'], c['preserve'])
+        results.append({'seen': seen, 'children': children, 'outcome': outcome})
         shape, perm = ftp_shape(c['url'], c['record'], c['glob'], c['preserve'])
         reqs.append('filter ftp %s %s %s %s %s %s' % (enc_filters(demux.url_filters), enc_rec(c['record']),
                                                      enc_info(parse(c['url'])), shape, perm, log.tables()))
@@ -1105,8 +1124,112 @@ def run_ftp_cases(ctx, cases, log):
             if broken:
                 ctx.fail('out-of-scope-request', 'ftp-session', case,
                          'the FTP server received a request for %s on behalf of %s; that URL breaks %s' % (u, c['url'], broken))
-    if cases:
+    if cases and sample:
         ctx.sample(dict(cases[0], stream='ftp'))
+    return results
+
+
+# ---- FTP crawls: an item, the links its listing offers, their items, ... (the depth of a link is part of its record)
+FTP_STARTS = ['/pub/*', '/pub/s*', '/pub/[a-t]*', '/pub/*.txt', '/pub/su?', '/pub/sub/*', '/*', '/pub/', '/pub/sub/', '/',
+              '/pub/sub/deeper/*', '/pub/f*', '/pub/sub/d*', '/pub/[!f]*', '/pub/sub/deeper/', '/pub/b*']
+
+
+def _ftp_entry_is_dir(url):
+    import urllib.parse
+    node = FTP_TREE.get(urllib.parse.unquote(parse(url).path).rstrip('/') or '/')
+    return isinstance(node, list)
+
+
+def run_ftp_crawls(ctx, cases, log, max_items=14):
+    """cases: {argv, hostnames, url, glob}.  The start URL is a command-line URL (depth 0); every link a listing
+    offers is followed with the record the REAL session wrote for it.  Each request that reaches the server is judged
+    by the reference under the depth the PROPERTY implies: the files a glob pattern matches stay at the depth of the glob
+    item (they are what the user named), a matched directory and every entry of a plain listing are one link further."""
+    from wpull.processor.ftp import GLOB_CHARS
+    st = []
+    for c in cases:
+        start_rec = {'parent_url': None, 'root_url': None, 'level': 0, 'inline_level': None, 'try_count': 0, 'link_type': None}
+        st.append({'c': c, 'args': parse_args(c['argv']), 'queue': [(c['url'], start_rec, 0)], 'done': set(), 'nreq': 0,
+                   'case': dict(c, stream='ftpcrawl'), 'links': 0})
+    child_reqs, child_meta = [], []
+    while True:
+        # one round: every queued item of every crawl (breadth first, sessions batched into one model call)
+        batch = []
+        for s_ in st:
+            q, s_['queue'] = s_['queue'], []
+            for url, rec, depth in q:
+                if url in s_['done'] or len(s_['done']) >= max_items:
+                    continue
+                s_['done'].add(url)
+                batch.append((s_, url, rec, depth))
+        if not batch:
+            break
+        items = [{'argv': s_['c']['argv'], 'hostnames': s_['c']['hostnames'], 'url': url, 'record': rec,
+                  'glob': s_['c']['glob'], 'preserve': False} for s_, url, rec, depth in batch]
+        for (s_, url, rec, depth), res in zip(batch, run_ftp_cases(ctx, items, log, sample=False)):
+            c = s_['c']
+            true_rec = dict(rec, level=depth)
+            for u in res['seen']:
+                s_['nreq'] += 1
+                broken = _justified(s_['args'], c['hostnames'], u, true_rec, False)
+                if broken:
+                    ctx.fail('out-of-scope-request', 'ftp-crawl', s_['case'],
+                             'the FTP server received a request for %s on behalf of the item %s, which is %d link(s) from the '
+                             'command-line URL %s (recorded level %d); at that depth the request breaks %s'
+                             % (u, url, depth, c['url'], rec['level'], broken))
+            is_glob = bool(c['glob'] and frozenset(parse(url).split_path()[1]) & GLOB_CHARS)
+            for ch in res['children']:
+                is_dir = _ftp_entry_is_dir(ch['url'])
+                child_reqs.append('filter ftpchild %s %s %d' % (enc_bool(is_glob), enc_bool(is_dir), rec['level']))
+                child_meta.append((s_, url, rec, ch, {'parent_url': url, 'root_url': rec['root_url'] or url}))
+                s_['links'] += 1
+                child_depth = depth if (is_glob and not is_dir) else depth + 1
+                crec = {'parent_url': ch['parent_url'], 'root_url': ch['root_url'], 'level': ch['level'],
+                        'inline_level': ch['inline_level'], 'try_count': 0, 'link_type': ch['link_type']}
+                s_['queue'].append((ch['url'], crec, child_depth))
+    for (s_, url, rec, ch, want_par), rep in zip(child_meta, ctx.model.ask(child_reqs)):
+        if rep != str(ch['level']) or ch['parent_url'] != want_par['parent_url'] or ch['root_url'] != want_par['root_url'] \
+                or ch['inline_level'] is not None:
+            ctx.disagree('ftpchild', dict(s_['case'], item=url, item_record=rec, child=ch),
+                         {'level': rep, 'parent_url': want_par['parent_url'], 'root_url': want_par['root_url'], 'inline_level': None},
+                         {k: ch[k] for k in ('level', 'parent_url', 'root_url', 'inline_level')})
+    for s_ in st:
+        c, n, nreq = s_['c'], len(s_['done']), s_['nreq']
+        ctx.case(('ftpcrawl', json.dumps(c, sort_keys=True)), nontrivial=nreq >= 2,
+                 tags=['ftpcrawl:items=%s' % ('1' if n < 2 else '2-5' if n < 6 else '6+'),
+                       'ftpcrawl:requests=%s' % ('0-1' if nreq < 2 else '2-5' if nreq < 6 else '6+'),
+                       'ftpcrawl:glob-start=%s' % enc_bool(bool(frozenset(parse(c['url']).split_path()[1]) & GLOB_CHARS)),
+                       'ftpcrawl:links=%d+' % min(s_['links'], 3)])
+    if cases:
+        ctx.sample(dict(cases[0], stream='ftpcrawl'))
+
+
+def gen_ftp_crawl_case(rng):
+    argv = ['ftp://a.example/']
+    if rng.random() < 0.6:
+        argv.append('-r')
+    if rng.random() < 0.7:
+        argv += ['-l', rng.choice(['1', '2', '3', 'inf'])]
+    r = rng.random()
+    if r < 0.08:
+        argv.append('--no-parent')
+    elif r < 0.16:
+        argv += ['-R', rng.choice(['txt', 'html', 'png'])]
+    elif r < 0.24:
+        argv += ['-X', rng.choice(['/pub/blog', '/pub/sub/deeper*', '/pub/sub'])]
+    elif r < 0.30:
+        argv += ['--reject-regex', rng.choice(['deeper', r'\.txt$', '/sub/$'])]
+    return {'argv': argv, 'hostnames': ['a.example'], 'url': 'ftp://a.example' + rng.choice(FTP_STARTS),
+            'glob': rng.random() < 0.85}
+
+
+def fixed_ftp_crawl_cases():
+    out = []
+    for extra in ([], ['-r', '-l', '1'], ['-r', '-l', '2'], ['-r', '-l', '3'], ['-r'], ['-l', '1']):
+        for start in ('/pub/*', '/pub/s*', '/pub/*.txt', '/pub/su?', '/pub/sub/*', '/pub/', '/*'):
+            for g in ((True, False) if extra in ([], ['-r', '-l', '1']) and start in ('/pub/*', '/pub/su?', '/pub/') else (True,)):
+                out.append({'argv': ['ftp://a.example/'] + extra, 'hostnames': ['a.example'], 'url': 'ftp://a.example' + start, 'glob': g})
+    return out
 
 
 
@@ -1614,6 +1737,8 @@ def replay(ctx, case, kind=None, where=None):
             run_web_cases(ctx, [case], log)
         elif s == 'ftp':
             run_ftp_cases(ctx, [case], log)
+        elif s == 'ftpcrawl':
+            run_ftp_crawls(ctx, [{k: case[k] for k in ('argv', 'hostnames', 'url', 'glob')}], log)
         elif s == 'crawl':
             case = dict(case)
             case['site'] = {h: {t: (dict(p, links=[tuple(l) for l in p['links']]) if 'links' in p else p) for t, p in ps.items()}
@@ -1665,6 +1790,7 @@ def run(ctx):
         srng = ctx.subrng('sessions')
         run_web_cases(ctx, web + [gen_web_case(srng) for _ in range(ctx.scale(600, 8000))], log)
         run_ftp_cases(ctx, ftp + [gen_ftp_case(srng) for _ in range(ctx.scale(450, 6000))], log)
+        run_ftp_crawls(ctx, fixed_ftp_crawl_cases() + [gen_ftp_crawl_case(srng) for _ in range(ctx.scale(40, 600))], log)
     # part (b) end to end: whole crawls of the real application
     crng = ctx.subrng('crawl')
     run_crawl_cases(ctx, [gen_crawl_case(crng) for _ in range(ctx.scale(40, 1000))])
@@ -1679,4 +1805,5 @@ def search(ctx):
         run_rawtests(ctx, [gen_raw_case(rng) for _ in range(ctx.scale(300, 1000))], log)
         run_web_cases(ctx, [gen_web_case(rng) for _ in range(ctx.scale(100, 300))], log)
         run_ftp_cases(ctx, [gen_ftp_case(rng) for _ in range(ctx.scale(100, 300))], log)
+        run_ftp_crawls(ctx, [gen_ftp_crawl_case(rng) for _ in range(ctx.scale(20, 60))], log)
     run_crawl_cases(ctx, [gen_crawl_case(rng) for _ in range(ctx.scale(2, 6))])
